@@ -236,6 +236,20 @@ func VerifC08_KUnbindable() {
 	}
 	t := env.LoadString("f", "(list true false :k)")
 	vAssert(t.String() == "'(true false :k)", "true, false and keywords still evaluate to themselves: "+t.String())
+	// "can never be bound": no package's table holds a binding under a keyword's name
+	for _, pn := range env.Runtime.Registry.PackageNames() {
+		_, bound := env.Runtime.Registry.Package(pn).Symbol(":k")
+		vAssert(!bound, "no package binds the keyword :k (package "+pn+")")
+	}
+	for _, f := range []string{"(defun :k2 () 1)", "(defmacro :k3 () 1)", "(set ':k4 v)", "(in-package 'other) (set ':k5 user:v)"} {
+		env.LoadString("g", f)
+	}
+	for _, pn := range env.Runtime.Registry.PackageNames() {
+		for _, kw := range []string{":k2", ":k3", ":k4", ":k5"} {
+			_, bound := env.Runtime.Registry.Package(pn).Symbol(kw)
+			vAssert(!bound, "defun / defmacro / set never bind a keyword ("+kw+" in "+pn+")")
+		}
+	}
 	vCover("end")
 }
 
